@@ -833,6 +833,15 @@ func toASTPosition(pos Position) ast.Position {
 }
 
 func normalizeNumber(s string) string {
+	// Separators are only meaningful in the mantissa: "1.5E3" must not be read as
+	// a digit group "1.5E3" -> "15E3" because three characters follow the mark.
+	if i := strings.IndexAny(s, "eE"); i >= 0 {
+		return normalizeMantissa(s[:i]) + s[i:]
+	}
+	return normalizeMantissa(s)
+}
+
+func normalizeMantissa(s string) string {
 	var dotCount, commaCount int
 	var lastDot, lastComma int
 
